@@ -43,6 +43,7 @@ func (r *bucketRegistry) registerBucket(bucket *Bucket) (bool, *Bucket) {
 	debug("_registerBucket %v %s at %s", bucket, name, bucket.url)
 	r.lock.Lock()
 	defer r.lock.Unlock()
+	verifPoint("registry.register", name)
 
 	_, ok := r.buckets[name]
 	if !ok {
@@ -68,6 +69,7 @@ func (r *bucketRegistry) getCachedBucket(name, url string, mode OpenMode) (*Buck
 	}
 
 	r.bucketCount[name] += 1
+	verifPoint("registry.cached", name)
 	return r.buckets[name].copy(), nil
 }
 
@@ -77,6 +79,7 @@ func (r *bucketRegistry) unregisterBucket(bucket *Bucket) {
 	debug("UNregisterBucket %v %s at %s", bucket, name, bucket.url)
 	r.lock.Lock()
 	defer r.lock.Unlock()
+	verifPoint("registry.unregister", name)
 
 	bucketCount := r.bucketCount[name]
 	if bucketCount == 0 {
